@@ -14,8 +14,8 @@ import (
 const rule = "distinct (graph, root, initial destination, mode, store pairing, K, MapRoot/platform) whose reachable part has >= 3 nodes and meets an already-present node, a shared node, a duplicate or foreign successor or a subject link"
 
 var (
-	quick    = copyh.Budget{Main: 300, Contention: 350, Twin: 0, CbFail: 150, Mount: 150, Remote: 100, RootPresent: 80, Extended: 150, PlatImage: 80, Reps: 0, Sched: 60, SchedReps: 4}
-	thorough = copyh.Budget{Main: 2000, Contention: 1800, Twin: 0, CbFail: 1200, Mount: 1000, Remote: 600, RootPresent: 500, Extended: 1500, PlatImage: 400, Reps: 3, Small: true, Sched: 100, SchedReps: 49}
+	quick    = copyh.Budget{Main: 300, Contention: 350, Twin: 40, TwinReach: 60, CbFail: 150, Mount: 150, Remote: 100, RootPresent: 80, Extended: 150, PlatImage: 80, Claim: 400, Reps: 0, Sched: 60, SchedReps: 4}
+	thorough = copyh.Budget{Main: 2000, Contention: 1000, Twin: 200, TwinReach: 300, CbFail: 1200, Mount: 1000, Remote: 600, RootPresent: 500, Extended: 800, PlatImage: 400, Claim: 2000, Reps: 2, Small: true, Sched: 100, SchedReps: 49}
 )
 
 // main: the plain binary (no controlled schedules; bin/check builds the test binary).
